@@ -269,6 +269,9 @@ impl DoviRpu {
             }
         }
 
+        // rpu_alignment_zero_bit: the parser reads the alignment bits before `remaining`
+        writer.byte_align()?;
+
         if let Some(remaining) = &self.remaining {
             for b in remaining {
                 writer.write(*b)?;
